@@ -403,7 +403,7 @@ func checkNeeded(c *fw.Ctx) {
 	// the two public entry points go through it
 	for _, spec := range []string{"StateNeededForAuth", "StateNeededForProtoEvent"} {
 		if f := mustFunc(c, rule, spec); f != nil {
-			c.Check(len(fw.CallsTo(f, false, fw.NameIs("gmsl.accumulateStateNeeded"))) == 1, rule, spec+" uses accumulateStateNeeded", c.P.Pos(f.Pos()), "", "the entry point computes needed state differently")
+			c.Expect(len(fw.CallsTo(f, false, fw.NameIs("gmsl.accumulateStateNeeded"))) == 1, rule, spec+" uses accumulateStateNeeded", c.P.Pos(f.Pos()), "", "the entry point computes needed state differently")
 		}
 	}
 	// reads of the join rule in the self-membership rules happen only for memberships that request it
@@ -492,7 +492,7 @@ func checkNeeded(c *fw.Ctx) {
 	}
 	// AddAuthEvents selects via the same computation (also C03.8)
 	if f := mustFunc(c, rule, "(*EventBuilder).AddAuthEvents"); f != nil {
-		c.Check(len(fw.CallsTo(f, false, fw.NameIs("gmsl.StateNeededForProtoEvent"))) == 1 && len(fw.CallsTo(f, false, fw.NameIs("(gmsl.StateNeeded).AuthEventReferences"))) == 1, rule, "AddAuthEvents selects exactly the needed state", c.P.Pos(f.Pos()), "", "auth events of new events are not chosen through StateNeededForProtoEvent + AuthEventReferences")
+		c.Expect(len(fw.CallsTo(f, false, fw.NameIs("gmsl.StateNeededForProtoEvent"))) == 1 && len(fw.CallsTo(f, false, fw.NameIs("(gmsl.StateNeeded).AuthEventReferences"))) == 1, rule, "AddAuthEvents selects exactly the needed state", c.P.Pos(f.Pos()), "", "auth events of new events are not chosen through StateNeededForProtoEvent + AuthEventReferences")
 	}
 }
 
